@@ -51,12 +51,14 @@ def entries(draw, lo, hi):
 @st.composite
 def pair_spec(draw, idx, tamper_heavy):
     return {
-        "passphrase": draw(st.one_of(st.sampled_from(["password", "pässwörd", "p w", ""]), st.text(min_size=1, max_size=12))) + f"#{idx}",
+        "passphrase": draw(st.sampled_from(["", "", " ", "\t"])) + draw(st.one_of(st.sampled_from(["password", "pässwörd", "p w", ""]), st.text(min_size=1, max_size=12)))
+        + f"#{idx}" + draw(st.sampled_from(["", "", " ", "\n"])),
         "cipher": draw(st.sampled_from(list(bx.KEY_SIZES))), "mac": draw(st.sampled_from(list(bx.MACS))),
         "kdf": draw(st.sampled_from(list(bx.KDFS))),
         "rounds": draw(st.sampled_from([1, 2, 10, 50])) if tamper_heavy else draw(st.one_of(st.sampled_from([1, 1000, 10000, 20000]), st.integers(1, 3000))),
         "salt": draw(st.binary(min_size=8, max_size=32)).hex(), "iv": draw(st.binary(min_size=16, max_size=16)).hex(),
         "id": draw(st.sampled_from(["JTHVQF8/BHU=", "id", "a b/c=d,(e)", "ключ"])),
+        "inner_quote": draw(st.sampled_from(["min", "min", "full"])),
     }
 
 
@@ -135,7 +137,9 @@ def check(spec) -> Outcome:
         return out
 
     # (b) wrong passphrases (incl. decoys' own passphrases)
-    wrong = [w for w in spec["wrong"] if w != p["passphrase"]]
+    pw = p["passphrase"]
+    near = [pw + " ", " " + pw, pw + "\n", pw.strip(), pw.upper(), pw.lower(), pw[:-1], pw + pw[-1:], pw.replace("#", "")]
+    wrong = [w for w in dict.fromkeys(spec["wrong"] + near) if w != pw]
     wrong += [q["passphrase"] for i, q in enumerate(spec["pairs"]) if i != spec["correct"]]
     for w in wrong:
         v, b4, err = unlock(text, w)
